@@ -247,6 +247,20 @@ func Gen(seed uint64, tier string) any {
 		}
 		sc.Clients = append(sc.Clients, c)
 	}
+	if sc.Window > 0 {
+		// a small window is a property of the run's link: every pipelining client then keeps to queries that fit it
+		// together (see above: otherwise client and server end up stuck writing to each other)
+		for i := range sc.Clients {
+			if c := &sc.Clients[i]; c.Pipeline {
+				if len(c.Exch) > 3 {
+					c.Exch = c.Exch[:3]
+				}
+				for j := range c.Exch {
+					c.Exch[j].Size = 0
+				}
+			}
+		}
+	}
 	if core.Chance(r, 6) {
 		// a slow sender: one stream client whose first query trickles in
 		c := Client{Net: "tcp", Trickle: true}
